@@ -2,6 +2,7 @@ package mcrt
 
 import (
 	"fmt"
+	"os"
 	"time"
 )
 
@@ -82,6 +83,7 @@ func (e *Explorer) runOnce(prefix []int, keepTrace bool) *X {
 	s := newSched(prefix, h, keepTrace)
 	if !keepTrace {
 		s.visited = e.visited
+		s.full = e.bound >= 1<<30
 	}
 	x := s.run(func() { e.sc.Body(s.x) })
 	if s.diverged != "" {
@@ -183,26 +185,50 @@ func Explore(sc *Scenario) (*Stats, *Failure) {
 	if a.traceSum != b.traceSum || len(a.points) != len(b.points) {
 		panic(MachineryFailure("default schedule is not deterministic: two runs differ"))
 	}
+	// Pass order: the cheapest bounds first (fewest-deviation counterexamples),
+	// then — with Full — the unbounded pass, whose state keys merge best; only
+	// if that pass is cut by the deadline do the larger bounds follow.
 	bounds := []int{}
-	for b := 0; b <= sc.Bound; b++ {
+	for b := 0; b <= sc.Bound && (b <= 1 || !sc.Full); b++ {
 		bounds = append(bounds, b)
 	}
 	if sc.Full {
 		bounds = append(bounds, 1<<30)
+		for b := 2; b <= sc.Bound; b++ {
+			bounds = append(bounds, b)
+		}
 	}
+	overall := sc.Deadline
 	prev := -1
+	fullCut := ""
 	for _, bound := range bounds {
 		cur := &Stats{Outcomes: st.Outcomes, TraceClasses: map[uint64]struct{}{}, Ends: map[string]int64{}, BoundCompleted: st.BoundCompleted}
 		e := &Explorer{sc: sc, st: cur, bound: bound}
+		if bound >= 1<<30 && !overall.IsZero() {
+			// the unbounded pass may use 60% of what is left
+			scCopy := *sc
+			scCopy.Deadline = time.Now().Add(time.Until(overall) * 6 / 10)
+			e.sc = &scCopy
+		}
 		if sc.Prune {
 			e.visited = map[uint64]int{}
 		}
 		e.explore(nil, 0)
 		cur.States = int64(len(e.visited))
+		if os.Getenv("MC_DEBUG") != "" {
+			fmt.Fprintf(os.Stderr, "pass bound=%d execs=%d pruned=%d states=%d skipped=%d capped=%q\n", bound, e.execs, e.prunedN, len(e.visited), e.skipped, cur.Capped)
+		}
 		cur.MaxThreads = max(cur.MaxThreads, st.MaxThreads)
 		if e.fail != nil {
 			cur.BoundCompleted = prev
 			return cur, e.fail
+		}
+		if cur.Capped != "" && bound >= 1<<30 && sc.Bound >= 2 && time.Now().Before(overall) {
+			// unbounded pass cut short: remember that, go on with the bounded passes
+			st.Capped = cur.Capped
+			st.Executions += e.execs
+			fullCut = cur.Capped
+			continue
 		}
 		if cur.Capped != "" {
 			cur.BoundCompleted = prev
@@ -222,6 +248,9 @@ func Explore(sc *Scenario) (*Stats, *Failure) {
 			st.Unbounded = true
 			break
 		}
+	}
+	if fullCut != "" && !st.Unbounded && st.Capped == "" {
+		st.Capped = fullCut
 	}
 	return st, nil
 }
